@@ -131,6 +131,26 @@ func genC09(r *Rand, n int, thorough bool, emit func(string)) {
 			z = r.Range(7, 24)
 		}
 		emit(fmt.Sprintf("f2r %s %d %d", showInts(l), r.Intn(2), z))
+		if i%50 == 33 {
+			// lists longer than any fixed-size scratch buffer (257-1500 frames), sorted or not
+			ln := r.Range(257, 1500)
+			a := r.Range(-100, 100)
+			st := r.PickInt([]int{1, 1, 2, 3, -1})
+			long := make([]int, ln)
+			for j := range long {
+				long[j] = a + j*st
+			}
+			// a few gaps and a shuffle of a window
+			for g := r.Range(0, 4); g > 0; g-- {
+				x := r.Range(1, ln-1)
+				long[x] += 100000 + x
+			}
+			if r.Bool() {
+				x := r.Range(0, ln-10)
+				long[x], long[x+7] = long[x+7], long[x]
+			}
+			emit(fmt.Sprintf("f2r %s %d %d", showInts(long), r.Intn(2), r.Range(0, 5)))
+		}
 		if i%25 == 11 {
 			// a contiguous run of 17-60 frames (either direction) with two interior frames swapped or
 			// another run spliced into the middle: every 16th frame is where a sorted run would have it
